@@ -20,7 +20,7 @@ pub struct Cfg {
     pub conn_limit: u32,
 }
 
-pub const RULE: &str = "configuration product --runtime-type {current-thread, multi-thread} x --threads {1,2,8} x --eviction-policy {none, random with --memory-limit 1GiB} (x --max-item-size {1 KiB.., default} x --connection-limit {1,3} in the thorough tier), each a real memcrsd child process on its own loopback port. Every configuration is driven with the same proptest-generated single-connection programs (all implemented opcodes loud/quiet, unimplemented opcodes, TTL 0 only) in the same order; oracle: the response byte stream of every program is identical to that of the first configuration (CAS included). Per configuration: a set whose body equals the item limit is accepted and limit+1 is answered 0x03; of 12 simultaneous connections exactly `connection-limit` answer a noop (the others stay unanswered over a 300 ms grace); 8 connections x 400 pipelined increments of one counter return 3200 distinct values and leave the exact total; real-time probe: set ttl 2 hits immediately and misses after 3.5 s while a ttl-0 item stays. evaluations = configurations x programs. non-trivial = a program with at least 10 requests covering at least 6 opcodes";
+pub const RULE: &str = "configuration product --runtime-type {current-thread, multi-thread} x --threads {1,2,8} x --eviction-policy {none, random with --memory-limit 1GiB} (x --max-item-size {1 KiB.., default} x --connection-limit {1,3} in the thorough tier), each a real memcrsd child process on its own loopback port. Every configuration is driven with the same single-connection programs (4 scripted ones aimed at the eviction-policy layer, delayed flush, counters and CAS, then proptest-generated ones) (all implemented opcodes loud/quiet, unimplemented opcodes, TTL 0 only) in the same order; oracle: the response byte stream of every program is identical to that of the first configuration (CAS included). Per configuration: a set whose body equals the item limit is accepted and limit+1 is answered 0x03; of 12 simultaneous connections exactly `connection-limit` answer a noop (the others stay unanswered over a 300 ms grace); 8 connections x 400 pipelined increments of one counter return 3200 distinct values and leave the exact total; real-time probe: set ttl 2 hits immediately and misses after 3.5 s while a ttl-0 item stays. evaluations = configurations x programs. non-trivial = a program with at least 10 requests covering at least 6 opcodes";
 pub const ASSUME: &[&str] = &[
     "memcrsd is built from /repo's working tree with cargo's dev profile (overflow checks on) into /verif/harness/target/memcrsd-build",
     "the configuration product is enumerated completely for the listed values only; --port varies per configuration by construction",
@@ -120,6 +120,57 @@ fn gen_programs(seed: u64, n: usize) -> Vec<PipeCase> {
         PipeCase { items, seg: 0, cuts: vec![], workers: 0 }
     });
     (0..n).map(|_| strat.new_tree(&mut runner).unwrap().current()).collect()
+}
+
+/// hand-written programs aimed at code that only some configurations execute (eviction policy layer,
+/// delayed flush, counters, CAS), run before the generated ones
+fn scripted_programs() -> Vec<PipeCase> {
+    use crate::spec::{Cmd, Kind};
+    let k = |i: usize| crate::frames::KEYS[i];
+    let set = |key: &[u8], v: &[u8], ttl: u32| PItem::Cmd(Cmd::set(key, v, 7, ttl));
+    let get = |key: &[u8]| PItem::Cmd(Cmd::get(key));
+    let del = |key: &[u8]| PItem::Cmd(Cmd::new(Kind::Delete, key));
+    let flush = |delay: u32| {
+        let mut c = Cmd::new(Kind::Flush, &[]);
+        c.ttl = delay;
+        PItem::Cmd(c)
+    };
+    let incr = |key: &[u8], d: u64| {
+        let mut c = Cmd::new(Kind::Incr, key);
+        c.delta = d;
+        c.initial = 5;
+        PItem::Cmd(c)
+    };
+    let app = |key: &[u8], v: &[u8]| {
+        let mut c = Cmd::new(Kind::Append, key);
+        c.value = v.to_vec();
+        PItem::Cmd(c)
+    };
+    let mut progs: Vec<Vec<PItem>> = vec![];
+    // delayed flush, then deletes and stores of other keys, then reads of the survivors
+    progs.push(vec![set(k(0), b"a", 0), set(k(1), b"b", 0), set(k(2), b"10", 0), flush(600), get(k(1)), del(k(0)), set(k(3), b"c", 0), get(k(1)), get(k(2)), get(k(3)), del(k(1)), set(k(0), b"a2", 0), get(k(2)), get(k(0))]);
+    // many overwrites and rejected stores of one key, reads of the others
+    let mut p = vec![set(k(1), b"keep", 0), set(k(2), b"keep2", 0)];
+    for i in 0..40 {
+        p.push(set(k(0), format!("v{}", i).as_bytes(), 0));
+        if i % 5 == 0 {
+            let mut c = Cmd::set(k(0), b"stale", 1, 0);
+            c.cas = 1;
+            p.push(PItem::Cmd(c));
+        }
+    }
+    p.extend(vec![get(k(0)), get(k(1)), get(k(2))]);
+    progs.push(p);
+    // counters and appends
+    let mut p = vec![del(k(2)), incr(k(2), 1), incr(k(2), u64::MAX), incr(k(2), 7), get(k(2)), set(k(3), b"", 0)];
+    for i in 0..10 {
+        p.push(app(k(3), format!("<{}>", i).as_bytes()));
+    }
+    p.extend(vec![get(k(3)), flush(0), get(k(3)), get(k(2)), incr(k(2), 1), get(k(2))]);
+    progs.push(p);
+    // items with a long ttl around an immediate and a delayed flush
+    progs.push(vec![set(k(0), b"t", 100_000), set(k(1), b"u", 0), flush(3000), get(k(0)), get(k(1)), set(k(0), b"t2", 50_000), del(k(1)), set(k(1), b"u2", 0), get(k(0)), get(k(1)), flush(0), get(k(0)), set(k(2), b"after", 0), get(k(2))]);
+    progs.into_iter().map(|items| PipeCase { items, seg: 0, cuts: vec![], workers: 0 }).collect()
 }
 
 fn configs(ctx: &Ctx) -> Vec<Cfg> {
@@ -304,8 +355,9 @@ pub fn check(ctx: &mut Ctx) -> i32 {
         }
     };
     let cfgs = configs(ctx);
-    let nprog = ctx.by(40, 300);
-    let programs = gen_programs(ctx.seed.wrapping_mul(7919), nprog);
+    let nprog = ctx.by(60, 300);
+    let mut programs = scripted_programs();
+    programs.extend(gen_programs(ctx.seed.wrapping_mul(7919), nprog));
     let fail = |ctx: &Ctx, acc: &Accum, clause: &str, msg: String, detail: serde_json::Value| -> i32 {
         let fi = FailInfo { clause: clause.to_string(), msg, signature: clause.to_string(), detail: detail.clone() };
         report_violation(ctx, "c20", &detail, &fi);
